@@ -149,7 +149,7 @@ func (d *Discharger) one(o *Obligation) {
 	var itext string
 	if o.Kind != "cover" {
 		if ia, ig, any := instantiate(o.Assumes, o.Goal); any {
-			iq := &Query{Name: o.Name + " [finite instantiation]", Assumes: ia, Goal: ig}
+			iq := &Query{Name: o.Name + " [finite instantiation]", Assumes: ia, Goal: ig, AbstractRec: true}
 			itext = iq.SMTText(true)
 		}
 	}
